@@ -316,6 +316,7 @@ def decide(ctx, prop, rows, gens, plans, listed_open):
         return {"kind": kind, "case": r.id, "request": case_cfg(r), "impl": r.impl, "model": r.model, "reference": r.ref,
                 "kf_classes": r.kf, "aspect_impl": aspect(prop, r.impl), "aspect_model": aspect(prop, r.model),
                 "spec": bytes.fromhex(g[4]).decode("utf-8", "replace") if g and len(g) > 4 else None,
+                "invocation": json.loads(bytes.fromhex(g[5]).decode("utf-8", "replace")) if g and len(g) > 5 and g[5].startswith("7b") else None,
                 "plan": plans.get(r.pkg)}
     viol.sort(key=lambda r: (len(r.fields[3]), len(r.impl)))
     for r in viol[:5]:
